@@ -167,6 +167,9 @@ fn apply(t: &Tr, a: &[Lay]) -> Vec<Lay> {
 
 fn run_case(out: &mut Out, case: usize, src: &str, a: &[Lay], t: &Tr) {
     let b = apply(t, a);
+    if b.is_empty() || b.len() > 5 {
+        return; // the property speaks about stacks of 1..=5 layers (the model covers the empty stack in R1)
+    }
     let bx = bbox(a, &b, 2);
     out.ev(&json!({"ev":"reset","case":case,"src":src}));
     let r = guard(|| {
@@ -265,8 +268,16 @@ fn rnd_case(r: &mut StdRng, want: usize) -> (Vec<Lay>, Tr) {
     let mut a: Vec<Lay> = (0..n).map(|_| rnd_layer(r, false)).collect();
     let k = r.gen_range(1..=n);
     let t = match want {
-        0 => Tr { op: "remove", k, d: (0, 0), layer: None },
+        0 => {
+            if n == 1 {
+                a.push(rnd_layer(r, false));
+            }
+            Tr { op: "remove", k, d: (0, 0), layer: None }
+        }
         1 => {
+            if n == 1 {
+                a.push(rnd_layer(r, false));
+            }
             a[k - 1].v = false;
             let mut l = rnd_layer(r, false);
             l.v = false;
@@ -304,6 +315,9 @@ fn rnd_case(r: &mut StdRng, want: usize) -> (Vec<Lay>, Tr) {
         }
         _ => {
             // alpha layer removal (L3): make layer k an alpha layer
+            if n == 1 {
+                a.insert(0, rnd_layer(r, false));
+            }
             a[k - 1].a = true;
             a[k - 1].v = true;
             Tr { op: "remove", k, d: (0, 0), layer: None }
@@ -375,7 +389,7 @@ pub fn c13(a: &Args) {
     eprintln!("c13: {n_gen} TLC-generated cases replayed");
 
     // (2) seeded random stacks: 1..=5 layers, 1..=12 x 1..=8, offsets -4..=6, all modes
-    let n_rnd = a.usize("n", if thorough { 6000 } else { 700 });
+    let n_rnd = a.usize("n", if thorough { 12000 } else { 700 });
     for i in 0..n_rnd {
         let mut r = rng(seed, 130_000 + i as u64);
         let (st, t) = rnd_case(&mut r, i % 7);
